@@ -492,6 +492,17 @@ func runC14(c *Ctx) {
 				if r.Chance(1, 3) {
 					j.text += "\ndat undefined_a, undefined_b\n dat undefined_c\n"
 				}
+				if r.Chance(1, 25) {
+					// a long chain of EQU aliases (every name stands for the next one): whatever order the symbol
+					// table is walked in, the answer is the same every time
+					var b strings.Builder
+					n := r.Range(1001, 1600)
+					for i := 0; i < n; i++ {
+						fmt.Fprintf(&b, "al%d equ al%d\n", i, i+1)
+					}
+					fmt.Fprintf(&b, "al%d equ %d\ndat al0, al%d\nmov al%d, 1\n", n, r.Intn(100), n/2, n-1)
+					j.text = b.String()
+				}
 			case x < 9:
 				j.kind = jkLoad
 				code, start := genWarrior(r, int64(r.Intn(7616)), asm.D94, ac.CoreSize, min(ac.Length, 8))
